@@ -8,13 +8,17 @@ import "encoding/binary"
 
 const (
 	opSTOP         = 0x00
+	opAND          = 0x16
+	opSHR          = 0x1c
 	opADDRESS      = 0x30
 	opBALANCE      = 0x31
 	opCALLDATALOAD = 0x35
 	opCALLDATASIZE = 0x36
 	opCODECOPY     = 0x39
+	opGASPRICE     = 0x3a
 	opEXTCODESIZE  = 0x3b
 	opEXTCODEHASH  = 0x3f
+	opDIFFICULTY   = 0x44
 	opPOP          = 0x50
 	opMLOAD        = 0x51
 	opMSTORE       = 0x52
